@@ -35,6 +35,13 @@ theorem fact_retry_backoff :
     "retry.DelayType(retry.CombineDelay(retry.BackOffDelay, retry.RandomDelay))" ∈ Facts.C14.retryOptions ∧
     Facts.C14.retryMaxDelayNs = 86400000000000 := by decide
 
+/-- Notify reschedules the failed first notification unless the error is an EventFatal (errors.As), i.e. also when
+    notifyNow wrapped its own storage error in retry.Unrecoverable (three sites: job read, EventFatal, write-back) -/
+theorem fact_notify_drops_only_event_fatal :
+    Facts.C14.notifyRetryCondition = ["err != nil", "!errors.As(err, new(EventFatal))"] ∧
+    Facts.C14.notifyNowUnrecoverable = ["retry.Unrecoverable(err)", "retry.Unrecoverable(err)", "retry.Unrecoverable(err)"] :=
+  ⟨rfl, rfl⟩
+
 theorem fact_notifyNow_retries :
     Facts.C14.notifyNowRetriesWrites = ["dbEvent.Retries = maxRetries", "dbEvent.Retries++"] := by decide
 
@@ -392,29 +399,67 @@ example : (run (wCfg true allDone) init storedBeforePrivateOps).shelf 1 1 = none
 /-- **restart_redelivers**: whatever state a stop left behind (`σ` is arbitrary: stopped before commit, between commit
     and notification, inside a receiver, during retries, after a failed Finished write), `Run` calls the receiver
     of every job on the shelf that is not parked by the context-error rule — unless the node stops again inside a
-    receiver during this very start-up (then `no_loss` still holds the job for the next start). -/
+    receiver during this very start-up (then `no_loss` still holds the job for the next start), or a transient store
+    fault keeps Run from reading this job (`readFault`: the attempt is on the ledger, the receiver was not reached; Run
+    then starts the retry loop for it, see `storage_fault_is_rescheduled`). -/
 theorem restart_redelivers (c : Cfg) (σ : St) (order : List Nat) (s r : Nat) (j : Job)
     (hs : s ∈ order) (hr : r < c.nRefs) (hj : σ.shelf s r = some j) (hctx : j.err ≠ .ctx) :
     ∃ new, (restart c σ order).ledger = new ++ σ.ledger ∧
-      ((∃ ty k o, o ≠ Outcome.crash ∧ Entry.call s r ty k o ∈ new) ∨ (∃ s' r' ty k, Entry.call s' r' ty k .crash ∈ new)) :=
-  restart_delivers σ order s r j hs hr hj hctx
+      ((∃ ty k o, o ≠ Outcome.crash ∧ o ≠ Outcome.readFault ∧ Entry.call s r ty k o ∈ new) ∨
+       (∃ s' r' ty k, Entry.call s' r' ty k .crash ∈ new) ∨ (∃ ty k, Entry.call s r ty k .readFault ∈ new)) := by
+  obtain ⟨new, h1, h2⟩ := restart_delivers σ order s r j hs hr hj hctx
+  refine ⟨new, h1, ?_⟩
+  rcases h2 with ⟨ty, k, o, ho, hm⟩ | h2
+  · by_cases hf : o = .readFault
+    · subst hf; exact .inr (.inr ⟨ty, k, hm⟩)
+    · exact .inl ⟨ty, k, o, ho, hf, hm⟩
+  · exact .inr (.inl h2)
 
 /-- at-least-once, end to end: for every admitted event and every selecting type-filtered subscriber, after any history
     (stops anywhere) followed by a restart, the event has been completed, or its receiver is called during the restart,
-    or the restart itself is stopped inside a receiver, or the job is parked by the context-error rule. -/
+    or the restart itself is stopped inside a receiver, or the job is parked by the context-error rule, or a transient
+    store fault kept Run from reading the job (then its retry loop is started). -/
 theorem delivered_at_least_once (c : Cfg) (ops : List Op) (order : List Nat) (r : Nat) (ty : EvType) (s : Nat) (t : EvType)
     (hadm : (r, ty) ∈ (run c init ops).admitted) (hs : s < c.nSubs) (hso : s ∈ order) (hsel : c.sel s r ty = true)
     (htyp : Typed c s t) :
     completedIn (run c init ops).ledger s r = true ∨
     (∃ j, (run c init ops).shelf s r = some j ∧ j.err = .ctx) ∨
     ∃ new, (restart c (run c init ops) order).ledger = new ++ (run c init ops).ledger ∧
-      ((∃ ty' k o, o ≠ Outcome.crash ∧ Entry.call s r ty' k o ∈ new) ∨ (∃ s' r' ty' k, Entry.call s' r' ty' k .crash ∈ new)) := by
+      ((∃ ty' k o, o ≠ Outcome.crash ∧ o ≠ Outcome.readFault ∧ Entry.call s r ty' k o ∈ new) ∨
+       (∃ s' r' ty' k, Entry.call s' r' ty' k .crash ∈ new) ∨ (∃ ty' k, Entry.call s r ty' k .readFault ∈ new)) := by
   have hinv := (Inv.init c).run ops
   rcases hinv.loss r ty s t hadm hs hsel htyp with ⟨j, hj, _⟩ | hc
   · by_cases hctx : j.err = .ctx
     · exact .inr (.inl ⟨j, hj, hctx⟩)
-    · exact .inr (.inr (restart_delivers _ order s r j hso (hinv.dagLt r (hinv.admDag r ty hadm)) hj hctx))
+    · exact .inr (.inr (restart_redelivers c _ order s r j hso (hinv.dagLt r (hinv.admDag r ty hadm)) hj hctx))
   · exact .inl hc
+
+/-- **only an EventFatal stops retrying** (Notify): whatever `notifyNow` returns for a selected event - the receiver's
+    error, "incomplete", a failed Finished write, or the notifier's OWN unrecoverable storage error while reading the job
+    or writing the failure count back (`NRes.unrec`) - a retry loop with the full budget is started, unless the result is
+    nil (done / job gone), an EventFatal, or the node stopped. -/
+theorem notify_reschedules_unless_fatal (c : Cfg) (σ : St) (s : Nat) (ev : Nat × EvType) (hsel : c.sel s ev.1 ev.2 = true)
+    (hres : (notifyNow c σ s ev.1).2 = .err ∨ (notifyNow c σ s ev.1).2 = .unrec) :
+    (notify c σ s ev).1 = spawn c (notifyNow c σ s ev.1).1 s ev.1 0 ∧ (notify c σ s ev).2 = false := by
+  unfold notify
+  rw [if_pos hsel]
+  generalize notifyNow c σ s ev.1 = p at hres
+  obtain ⟨σ', res⟩ := p
+  rcases hres with h | h <;> (simp only at h; subst h; exact ⟨rfl, rfl⟩)
+
+/-- the storage faults of the notifier itself are exactly the `unrec` results, and none of them is an EventFatal -/
+theorem storage_fault_is_rescheduled (c : Cfg) (σ : St) (s r : Nat) (j : Job) (hj : σ.shelf s r = some j)
+    (ho : c.beh s r (attemptNo σ s r) = .readFault ∨ c.beh s r (attemptNo σ s r) = .notDoneWriteFail ∨
+          c.beh s r (attemptNo σ s r) = .failWriteFail) :
+    (notifyNow c σ s r).2 = .unrec ∧ (notifyNow c σ s r).1.shelf s r = some j := by
+  rw [notifyNow_some hj]
+  rcases ho with h | h | h <;> rw [h] <;> simp [resAfter, jobAfter]
+
+/-- with `maxRetries > 1` the rescheduled loop exists: a task for (s, r) with `maxRetries - 1` attempts -/
+theorem rescheduled_loop_exists (c : Cfg) (σ : St) (s r : Nat) (h : 1 < c.maxRetries) :
+    ∃ t, t ∈ (spawn c σ s r 0).running ∧ t.sub = s ∧ t.ref = r ∧ t.left = c.maxRetries - 1 := by
+  obtain ⟨t, ht, a, b, d⟩ := spawn_mem (c := c) (σ := σ) (s := s) (r := r) (k := 0) (by omega)
+  exact ⟨t, ht, a, b, by omega⟩
 
 /-- **Run re-reads the shelf**: Run resumes its snapshot one job at a time; an event whose completion record landed while
     the loop was busy with an earlier job (its job is gone from the shelf: `Finished` by the payload handler or by the
